@@ -127,7 +127,7 @@ namespace {
       const R c3 = std::sqrt(std::max(R(2e-14), 1 - s3 * s3));
       o.ampSecond = inner ? 1 / (c3 * c3) : 1;
     }
-    o.amp = 16;
+    o.amp = 32;
     // known finding C22.mohr.second_fd.two_equal: on the triaxial meridians the closed
     // form divides by cos(3 theta)^2 (clamped to 2e-14) and is 0.2 % (median) to 10 % off
     if (negative) {
